@@ -55,7 +55,9 @@ def main():
         if a.k and a.k not in mt['id'] and a.k not in mt['prop']:
             continue
         prepare()
-        for e in mt.get('edits', [mt]):
+        if mt.get('patch'):
+            subprocess.check_call(['patch', '-p1', '-s', '-i', os.path.join(VERIF, mt['patch'])], cwd=SCRATCH)
+        for e in mt.get('edits', [mt] if 'file' in mt else []):
             e = dict(e)
             e.setdefault('id', mt['id'])
             apply(e)
